@@ -116,6 +116,8 @@ def install(eng):
             return v.shape[0]
         if isinstance(v, M.RangeVal):
             return v.count()
+        if type(v).__name__ == "LazySeq":
+            return v.length
         if isinstance(v, I.Opaque) and "len" in v.data:
             return v.data["len"]
         if T.is_scalar(v):
@@ -144,12 +146,22 @@ def install(eng):
 
     @model("builtins.iter")
     def _iter(eng, it):
+        from . import lazyseq as LZ
+        if isinstance(it, LZ.Stateful):
+            return it
+        if isinstance(it, LZ.LazySeq):
+            return LZ.LazyIter(it)
         if isinstance(it, I.GeneratorValue):
             return it
         return I.GeneratorValue(M.iterate(eng, it))
 
     @model("builtins.list", "ctor.list")
     def _list(eng, it=()):
+        from . import lazyseq as LZ
+        if LZ.is_lazy(it):
+            r = LZ.drain(eng, it)
+            items = LZ.concrete_items(eng, r)
+            return items if items is not None else r
         return list(M.iterate(eng, it))
 
     @model("builtins.tuple", "ctor.tuple")
@@ -605,6 +617,8 @@ def install(eng):
             r = M.array_from_seq(eng, v)
         elif isinstance(v, I.GeneratorValue):
             r = I.Arr((), lambda: v, "obj")
+        elif type(v).__name__ == "LazySeq":
+            r = M.array_from_lazy(eng, v)
         elif isinstance(v, M.RangeVal):
             r = _arange(eng, v.start, v.stop, v.step)
         elif T.is_scalar(v):
